@@ -8,7 +8,7 @@ from harness.descr import data_coq, ty_coq, value_coq
 from harness.schema_coq import doc_coq, Unsupported
 
 NEEDED = ["Schema/Json.v", "Schema/Build.v", "Schema/Run.v", "Schema/Proofs.v", "Ser/Model.v", "Ser/Spec.v",
-          "Ser/RoundTripInd.v", "Schema/AgreeProofs.v", "Schema/SerAgree.v"]
+          "Ser/RoundTripInd.v", "Schema/AgreeProofs.v", "Schema/SerAgree.v", "Schema/BuildSer.v", "Ser/ImageInv.v", "Schema/SerClassProofs.v"]
 HEADER_EXTRA = "From AV Require Import Schema.Json Schema.Build Schema.Run.\n"
 
 
@@ -29,6 +29,48 @@ def json_in_domain(j):
     if isinstance(j, dict):
         return all(isinstance(k, str) and json_in_domain(v) for k, v in j.items())
     return False
+
+
+def member_collision(v, depth=0):
+    """a set / frozenset holding an enum member next to a value equal to that member's value: distinct in Python, equal in JSON"""
+    import enum
+    import dataclasses
+    if depth > 8:
+        return False
+    if isinstance(v, (set, frozenset)):
+        vals = [x.value for x in v if isinstance(x, enum.Enum)]
+        plain = [x for x in v if not isinstance(x, enum.Enum)]
+        if any(a == b and type(a) is type(b) or (isinstance(a, (int, float)) and isinstance(b, (int, float)) and a == b)
+               for a in vals for b in plain) or len(set(map(repr, vals))) < len(vals):
+            return True
+    if isinstance(v, (list, tuple, set, frozenset)):
+        return any(member_collision(x, depth + 1) for x in v)
+    if isinstance(v, dict):
+        return any(member_collision(x, depth + 1) for x in v.values())
+    if dataclasses.is_dataclass(v) and not isinstance(v, type):
+        return any(member_collision(getattr(v, f.name), depth + 1) for f in dataclasses.fields(v))
+    if isinstance(v, tuple) and hasattr(v, "_fields"):
+        return any(member_collision(x, depth + 1) for x in v)
+    return False
+
+
+def set_collision_probe(R, jsonschema):
+    """directed probe of KF-C07-set-members-equal-json"""
+    pyrun.ensure_repo_on_path()
+    import enum
+    from typing import FrozenSet, Union
+    from apischema import serialize
+    from apischema.json_schema import serialization_schema
+
+    class _E(enum.Enum):
+        M = 2
+    tp = FrozenSet[Union[int, _E]]
+    out = serialize(tp, frozenset({2, _E.M}))
+    doc = json.loads(json.dumps(serialization_schema(tp, with_schema=False)))
+    R.count("set_collision_probe")
+    if list(jsonschema.Draft202012Validator(doc).iter_errors(out)):
+        if not R.known_match("set-members-equal-json"):
+            R.violation(f"serialize(FrozenSet[Union[int, E]], {{2, E.M}}) = {out!r} violates uniqueItems of its schema", dict(schema=doc, output=out))
 
 
 def has_obj(t):
@@ -63,6 +105,8 @@ def run(tier):
     P = SProducer(R, *n, depth=3, make_opts=make_opts, pass_through=False)
     schemas, sdefs, vcases, vmeta = {}, [], [], []
     tcases, tmeta = [], []      # object-free cases: candidates for the proved theorem (Schema/SerAgree.v)
+    bcases, bmeta, bseen = [], [], set()   # one per distinct (universe, options, type): builder model vs serialization_schema
+    ccases = []                            # every validated case, for the theorem with classes
 
     def unset_drops(c):
         """fields dropped by unset-tracking: outside the property"""
@@ -125,10 +169,22 @@ def run(tier):
                 return
             errors = list(jsonschema.Draft202012Validator(ent["doc"]).iter_errors(j))
             R.count("validated" if not errors else "invalid")
+            if errors and all(e.validator == "uniqueItems" for e in errors) and member_collision(c.value) \
+                    and R.known_match("set-members-equal-json"):
+                errors = []
             if errors:
                 e = errors[0]
                 R.violation(f"serialize output is invalid against serialization_schema: {e.message[:160]} at "
                             f"{list(e.absolute_path)}", dict(c.to_json(), output=j, schema=ent["doc"]))
+            if ent["coq"] and ent["idx"] not in bseen:
+                bseen.add(ent["idx"])
+                bcases.append(f"(U{c.uidx}, {S.sopts_coq(c.opts)}, {ty_coq(c.t)}, S{ent['idx']}, D{ent['idx']})")
+                bmeta.append(dict(c.to_json(), schema=ent["doc"]))
+            if ent["coq"]:
+                try:
+                    ccases.append(f"(U{c.uidx}, {S.sopts_coq(c.opts)}, {ty_coq(c.t)}, {value_coq(c.value, U.mod, sort_sets=False)})")
+                except Exception:
+                    R.count("value_outside_fragment")
             if ent["coq"] and json_in_domain(j):
                 try:
                     vcases.append(f"(S{ent['idx']}, D{ent['idx']}, {data_coq(j)}, {coq_bool(not errors)})")
@@ -147,6 +203,7 @@ def run(tier):
     from harness import probes
     probes.late_serialized_method(R)
     nested_global_probe(R, jsonschema)
+    set_collision_probe(R, jsonschema)
     probes.dynamic_over_default_conversion(R)
     header = P.header() + HEADER_EXTRA + "\n".join(sdefs) + "\n"
     T2 = "js * defs * pyval * bool"
@@ -159,6 +216,27 @@ def run(tier):
         R.broken.append("the validator model (Schema/Json.v jvalid) disagrees with jsonschema on " + json.dumps(vmeta[i])[:700])
     R.hist["validator_cases"] = len(vcases)
     R.hist["validator_mismatches"] = len(bad2)
+    # the model of the serialization schema builder (Schema/BuildSer.v) against serialization_schema, structurally
+    T4 = "univ * sopts * ty * js * defs"
+    bad4, errs = core.run_coq_shards(
+        "C07_build", header + "From AV Require Import Ser.Spec Schema.BuildSer.\n", bcases,
+        "(fun c : " + T4 + " => let '(u, so, t, s, ds) := c in let '(ms, mds) := model_ser_schema u so false t in "
+        "js_eqb ms s && defs_eqb mds ds)", item_type=T4, shard=200)
+    for k, e in errs:
+        R.broken.append(f"coq evaluation failed (C07_build shard {k}): {e[-300:]}")
+    for i in bad4[:5]:
+        R.broken.append("the model of the serialization schema builder (Schema/BuildSer.v) differs from serialization_schema on "
+                        + json.dumps(bmeta[i])[:900])
+    R.hist["builder_cases"] = len(bcases)
+    # cases within the hypotheses of C07_output_validates_with_classes (classes included)
+    T5 = "univ * sopts * ty * value"
+    outside5, errs = core.run_coq_shards(
+        "C07_hyps_classes", header + "From AV Require Import Ser.Spec Ser.RoundTrip Ser.RoundTripInd Schema.BuildSer Schema.SerClassProofs.\n",
+        ccases, "(fun c : " + T5 + " => let '(u, so, t, v) := c in ser_hyps u so t 40 ser_fuel v)", item_type=T5, shard=300)
+    for k, e in errs:
+        R.broken.append(f"coq evaluation failed (C07_hyps_classes shard {k}): {e[-300:]}")
+    R.hist["cases_within_the_theorem_with_classes"] = len(ccases) - len(outside5)
+    R.hist["builder_mismatches"] = len(bad4)
     # the proved fragment (C07_object_free_output_validates): on the cases within its hypotheses, the schema the theorem speaks
     # about (the builder model) is the implementation's serialization_schema, and its conclusion is re-evaluated
     T3 = "univ * sopts * ty * value * js * defs * pyval"
